@@ -1,6 +1,31 @@
 //! Checks whose executions are adversarial single-instance histories with all monitors attached.
 use crate::frame::{Batch, CheckDef};
 use crate::chaos::Chaos;
+use crate::exhaust::Exhaustive;
+
+static E06: Exhaustive = Exhaustive { focus: "C06" };
+static E07: Exhaustive = Exhaustive { focus: "C07" };
+static E08: Exhaustive = Exhaustive { focus: "C08" };
+static E09: Exhaustive = Exhaustive { focus: "C09" };
+static E10: Exhaustive = Exhaustive { focus: "C10" };
+static E13: Exhaustive = Exhaustive { focus: "C13" };
+static E15: Exhaustive = Exhaustive { focus: "C15" };
+static E16: Exhaustive = Exhaustive { focus: "C16" };
+static E19: Exhaustive = Exhaustive { focus: "C19" };
+
+pub fn exhaustive_for(p: &str) -> &'static Exhaustive {
+    match p {
+        "C06" => &E06,
+        "C07" => &E07,
+        "C08" => &E08,
+        "C09" => &E09,
+        "C10" => &E10,
+        "C13" => &E13,
+        "C15" => &E15,
+        "C16" => &E16,
+        _ => &E19,
+    }
+}
 use crate::hist::Hist;
 
 static X06: Chaos = Chaos { focus: "C06" };
@@ -48,11 +73,12 @@ fn hist_def(property: &'static str, h: &'static Hist, rule: &'static str, quick:
             "identity domain: 3..6 addresses x 4 generations, incarnations boundary-biased (0,1,MAX-1,MAX, known, known+1, uniform)".into(),
             "identities have a strict total conflict order per address (higher generation wins)".into(),
             "codec failures other than lack of space are not injected".into(),
+            "exhaustive-short-histories batch: EVERY sequence of 3 (quick) / 4 (thorough) operations over a fixed alphabet of 40 (datagrams of every kind from two peers incl. self-suspicion, self-down, TurnUndead, renamed peer, relays, custom items; genuine and stale timers; leave, reuse, change_identity, gossip, broadcast, add_broadcast, announce, apply_many, set_config) x 8 setups (notify_down_members, renewable, tiny packets), starting from an instance with two members and a probe in flight".into(),
             "chaos-pool batch: each run enables a random subset of {latency beyond probe_rtt, loss <= 20%, duplication <= 10%, corruption <= 5%, partitions with heal, crash/restart with or without the saved membership snapshot, leave, stall, clock skew 0.5x..2x and lag, user identity change, custom broadcasts}".into(),
         ],
         real_components: REAL,
         stub_components: STUB,
-        batches: vec![Batch { scenario: h, quick, thorough }, Batch { scenario: chaos_for(property), quick: 3_000, thorough: 150_000 }],
+        batches: vec![Batch { scenario: h, quick, thorough }, Batch { scenario: chaos_for(property), quick: 3_000, thorough: 150_000 }, Batch { scenario: exhaustive_for(property), quick: 0, thorough: 0 }],
         extra: None,
     }
 }
